@@ -42,9 +42,27 @@ func (c *Ctx) SameStore(prop string) {
 		c.R.Unknown(rule, pkgPath, "-", "no store constructor passing its own parameter to badger.DefaultOptions found")
 		return
 	}
-	// 2. the configuration field given to the constructor
+	// 2. the configuration field given to the constructor (through helpers that hand their own parameter on)
 	field := ""
 	var ownerT types.Type
+	for hop := 0; hop < 3; hop++ {
+		moved := false
+		for _, ci := range c.staticCallers()[ctor] {
+			if ctorParam >= len(ci.Common().Args) {
+				continue
+			}
+			if q, isParam := ci.Common().Args[ctorParam].(*ssa.Parameter); isParam && !moved {
+				for k, qq := range ci.Parent().Params {
+					if qq == q {
+						ctor, ctorParam, moved = ci.Parent(), k, true
+					}
+				}
+			}
+		}
+		if !moved {
+			break
+		}
+	}
 	for _, ci := range c.staticCallers()[ctor] {
 		if ctorParam >= len(ci.Common().Args) {
 			continue
